@@ -260,13 +260,15 @@ def run_deconv2d(c, rec):
     require(close(float(tp.posterior.logd(x)), wantl, 1e-9), "posterior log-density is not Gaussian log-likelihood plus log-prior")
     # using the problem (adjoint, gradient) must not change it: same forward values, same log-density, same PSF afterwards
     P_before = P.copy()
-    refuses(lambda: tp.model.adjoint(np.asarray(tp.data, dtype=float)))
-    refuses(lambda: tp.posterior.gradient(x.copy()))
-    require(close(tp.model.forward(x), want, 1e-9), "Deconvolution2D: the forward model changed after its adjoint / the posterior gradient was evaluated")
-    require(close(float(tp.posterior.logd(x)), wantl, 1e-9), "Deconvolution2D: the posterior log-density of the same point changed after a gradient evaluation")
-    require(maxdiff(np.asarray(tp.Miscellaneous["PSF"], dtype=float), P_before) == 0, "Deconvolution2D: the stated PSF changed while the problem was used")
-    if c["PSF"] == "array":
-        require(maxdiff(np.asarray(PSF, dtype=float), A(c["PSF_array"])) == 0, "Deconvolution2D altered the PSF array that was passed in")
+    for use, call in (("its adjoint was applied", lambda: tp.model.adjoint(np.asarray(tp.data, dtype=float))),
+                      ("the posterior gradient was evaluated", lambda: tp.posterior.gradient(x.copy())),
+                      ("its adjoint was applied again", lambda: tp.model.adjoint(np.asarray(tp.data, dtype=float)))):
+        refuses(call)      # (checked after every single call: an in-place flip would cancel after two)
+        require(close(tp.model.forward(x), want, 1e-9), f"Deconvolution2D: the forward model changed after {use}")
+        require(close(float(tp.posterior.logd(x)), wantl, 1e-9), f"Deconvolution2D: the posterior log-density of the same point changed after {use}")
+        require(maxdiff(np.asarray(tp.Miscellaneous["PSF"], dtype=float), P_before) == 0, f"Deconvolution2D: the stated PSF changed after {use}")
+        if c["PSF"] == "array":
+            require(maxdiff(np.asarray(PSF, dtype=float), A(c["PSF_array"])) == 0, f"Deconvolution2D altered the PSF array that was passed in after {use}")
 
 
 # ----------------------------------------------------------------------------- PDE problems
